@@ -152,6 +152,17 @@ theorem context_constructible_valid (c : Context) (h : c.newOk = true)
   exact ⟨(trace_info_constructible_iff_valid _).1 hi, (proof_options_constructible_iff_valid _).1 ho,
     by omega, by omega, hn, by omega, hm.1, hm.2.1, hm.2.2⟩
 
+/-- a context read from proof bytes respects the 32-bit limits `to_elements` relies on (so the
+reductions `% 2^32` in the seed are the identity on it) -/
+theorem decoded_context_within_limits (bs r : Bytes) (c : Context) (h : Context.decode bs = .ok c r) :
+    0 < c.numConstraints ∧ c.numConstraints < 2 ^ 32 ∧ c.info.length < 2 ^ 32 ∧
+    c.info.length * c.options.blowup < 2 ^ 32 := by
+  unfold Context.decode at h
+  repeat' split at h
+  all_goals first
+    | (injection h with h1 h2; subst h1; simp only []; omega)
+    | cases h
+
 /-- metadata that differ only by a trailing zero byte inside the last chunk give identical seed
     elements: the listed parameter "trace metadata" is NOT bound (genuine defect, recorded) -/
 theorem metadata_not_bound_counterexample :
